@@ -4,12 +4,14 @@ import (
 	"fmt"
 	"strings"
 	"time"
+	"unsafe"
 
 	"nhooyr.io/websocket"
 	"verif/engine/explore"
 	"verif/engine/vctx"
 	"verif/engine/vpipe"
 	"verif/engine/vs"
+	"verif/engine/vtime"
 	"verif/fw"
 	"verif/refws/frame"
 )
@@ -251,6 +253,82 @@ func c20ConcSetup(k connCfg, second string, crFirst bool) func(c *fw.Ctx, name s
 	}
 }
 
+// More concurrent histories around CloseRead:
+//
+//	two-closeread: two overlapping CloseRead calls, then an unexpected data
+//	  message from a peer that does not read (the CloseRead goroutine is stuck
+//	  writing its policy-violation Close frame), then CloseNow.
+//	slow-handshake: CloseRead, an unexpected data message, the Close frame of the
+//	  resulting handshake takes 3 s to get out and the peer never answers (the
+//	  handshake lasts 8 s); the application calls Close meanwhile.
+//
+// Both CloseRead calls have returned before anything can close the connection,
+// so whenever Close/CloseNow returns, no library goroutine may be left.
+func c20CRSetup(k connCfg, variant string) func(c *fw.Ctx, name string) explore.Setup {
+	return func(c *fw.Ctx, name string) explore.Setup {
+		return func(w *vs.World) func(bool) {
+			p := vpipe.New()
+			p.Window = 1
+			var live []string
+			var ended bool
+			var endErr error
+			var elapsed int64
+			ncr := 0
+			var gate struct{ x int }
+			w.GoHarness("main", true, func() {
+				conn := mkConn(p, k)
+				bg := vctx.Background()
+				t0 := w.Now
+				crs := 1
+				if variant == "two-closeread" {
+					crs = 2
+				}
+				for i := 0; i < crs; i++ {
+					w.GoHarness(fmt.Sprintf("closeread%d", i), true, func() {
+						conn.CloseRead(bg)
+						vs.BlockOn(unsafe.Pointer(&gate), "closeread-returned", nil, func() { ncr++ })
+					})
+				}
+				w.GoHarness("peer", false, func() {
+					vs.BlockOn(unsafe.Pointer(&gate), "wait-closereads", func() bool { return ncr == crs }, func() {})
+					p.Send(peerData(k, frame.OpBinary, true, fill(0xEE, 3)))
+					if variant == "slow-handshake" {
+						vtime.Sleep(3 * time.Second)
+						p.SetWindow(0)
+					}
+				})
+				w.GoHarness("closer", true, func() {
+					vs.BlockOn(unsafe.Pointer(&gate), "wait-closereads", func() bool { return ncr == crs }, func() {})
+					if variant == "slow-handshake" {
+						// let the CloseRead goroutine start its close handshake first
+						p.WaitOut("close-begun", func(out []byte) bool { return len(out) > 0 })
+						endErr = conn.Close(websocket.StatusNormalClosure, "")
+					} else {
+						endErr = conn.CloseNow()
+					}
+					elapsed = w.Now - t0
+					live = w.LiveLib()
+					ended = true
+				})
+			})
+			return func(complete bool) {
+				if !complete {
+					return
+				}
+				locus := variant + "/" + k.String()
+				if w.Panic != "" {
+					violate(c, w, name, "C20/panic/"+locus, w.Panic)
+					return
+				}
+				c.OutcomeStr(fmt.Sprintf("%s|ended=%v|live=%d|dt=%ds|err=%v", name, ended, len(live), elapsed/1e9, endErr != nil))
+				if ended && len(live) > 0 {
+					violate(c, w, name, "C20/goroutine-outlives-close/"+locus, fmt.Sprintf("the closing call returned (err=%v, %v virtual) while these library goroutines were still alive: %v", endErr, time.Duration(elapsed), live))
+				}
+			}
+		}
+	}
+}
+
 // histKind abstracts a history to the features that matter for goroutines.
 func histKind(h []string) string {
 	var k []string
@@ -321,6 +399,15 @@ func c20Scenarios(tier string) []scenario {
 				n := fmt.Sprintf("conc-closeread/Close+%s/crfirst=%v/%s", second, crFirst, k.String())
 				scs = append(scs, scenario{Name: n, Cfg: explore.Config{P: pc, T: 0, E: 0, Horizon: 120e9}, Setup: c20ConcSetup(k, second, crFirst), Shards: 4})
 			}
+		}
+	}
+	for _, k := range []connCfg{{Client: false}, {Client: true}} {
+		for _, v := range []string{"two-closeread", "slow-handshake"} {
+			pv := 2
+			if tier == "thorough" {
+				pv = 3
+			}
+			scs = append(scs, scenario{Name: "cr/" + v + "/" + k.String(), Cfg: explore.Config{P: pv, T: 1, E: 0, Horizon: 120e9}, Setup: c20CRSetup(k, v)})
 		}
 	}
 	return scs
